@@ -354,6 +354,22 @@ def run(ctx, rep):
         ": ", ":\n    ") in "\n".join(utext(s) for s in co.node.body) or "o.size_matched > 0" in body, "R2",
         key(co, None, "matched-only filter keeps orders with a positive matched size"), co)
 
+    # the per-client summary ranges over the blotter's index of that client's orders: an order that replaces
+    # another one is filed under the client of the replaced order (without `client=` Market.place_order opens
+    # the transaction of the DEFAULT client, which re-stamps the order)
+    n_rp = 0
+    for cn in ("BetfairExecution", "SimulatedExecution"):
+        er = prog.own_method(cn, "execute_replace")
+        for c in walk_calls(er.node.body):
+            if call_name(c) == "place_order":
+                n_rp += 1
+                kws = {k.arg: utext(k.value) for k in c.keywords}
+                pos = utext(c.args[4]) if len(c.args) > 4 else None
+                rep.check(kws.get("client", pos) == "order.client", "R2",
+                          key(er, c, "the replacing order is placed for the client of the replaced order"), er, c,
+                          "client argument: %s" % kws.get("client", pos))
+    rep.floor("R2", "placements of replacing orders", n_rp, 2)
+
     # ------------------------------------------------------------------ R3 results
     from rules.c20 import closed_market_results
     closed_market_results(ctx, rep, "R3")
